@@ -13,6 +13,8 @@ for id in $ids; do
   go build -tags "test verif" -o /dev/null "./cmd/$id" || exit 1
   [ -z "$first" ] && first=$id
 done
+# production-tag builds (no test tag) used by C12/C13 (c12prod) and C20 (c20prod)
+go build -tags verif -o /dev/null ./cmd/c12prod ./cmd/c20prod || exit 1
 # race runtime + instrumented dependencies (shared by all race-variant children)
 [ -n "$first" ] && { go build -race -tags "test verif" -o /dev/null "./cmd/$first" || exit 1; }
 echo setup ok
